@@ -368,6 +368,171 @@ def chk_strength(args):
     return out
 
 
+# ------------------------------------------------------------------ (J) multi-phase superposition: phases in different regimes
+def vf_to_ls(r, vf):
+    """surface-to-surface spacing of precipitates of projected radius r at volume fraction vf (square lattice estimate)"""
+    return r * (math.sqrt(3 * math.pi / 4 / vf) - math.pi / 2)
+
+
+def gen_super_case(rng):
+    """a host with 1-4 precipitate phases and a strength history whose rows put the phases into DIFFERENT regimes:
+    per row and phase one of absent (r = Ls = 0: not yet nucleated) / fine (0.3-2.5 nm: cutting, the weak branch is the
+    smallest) / coarse (10-200 nm: the weak branch is the largest, Orowan governs) / sub-core radius; row patterns
+    all-fine, all-coarse, mixed (at least one fine and one coarse phase), mixed with an absent phase, one phase present"""
+    p = gen_params(rng)
+    nph = rng.choice([1, 2, 2, 2, 3, 3, 4])
+    allOn = flags(rng)
+    phases = []
+    for k in range(nph):
+        on = flags(rng) if rng.random() < 0.6 else [False] * 5
+        if not any(allOn) and not any(on):
+            on[rng.randrange(5)] = True
+        phases.append({'name': ['alpha', 'beta', 'gamma', 'delta'][k], 'on': on, 'q': gen_phase_variant(rng, p)})
+    if rng.random() < 0.5:
+        exps = [1.8, 1.8, 1.4, 1.8]                     # the defaults of StrengthModel
+    else:
+        exps = [rng.choice([1.8, rng.uniform(1, 3)]), rng.choice([1.8, 1.0, 2.0, rng.uniform(1, 3)]),
+                rng.choice([1.4, 1.0, 2.5, rng.uniform(1, 3)]), 1.8]
+    nrows = rng.randint(4, 9)
+
+    def point(kind):
+        if kind == 'absent':
+            return 0.0, 0.0
+        if kind == 'fine':
+            r = rng.uniform(0.3e-9, 2.5e-9)
+        elif kind == 'coarse':
+            r = 10 ** rng.uniform(-8, -6.7)
+        else:
+            r = p['ri'] * rng.uniform(0.05, 0.49)
+        return r, vf_to_ls(r, 10 ** rng.uniform(-3.5, -1.5))
+    cols_r = [[0.0] * nrows for _ in range(nph)]
+    cols_l = [[0.0] * nrows for _ in range(nph)]
+    pats = []
+    for i in range(nrows):
+        pat = rng.choice(['mixed', 'mixed', 'mixed', 'mixed-absent', 'all-fine', 'all-coarse', 'one-present', 'any'])
+        if pat in ('mixed', 'mixed-absent') and nph >= 2:
+            kinds = ['fine', 'coarse'] + [rng.choice(['fine', 'coarse']) for _ in range(nph - 2)]
+            if pat == 'mixed-absent' and nph >= 3:
+                kinds[2] = 'absent'
+            rng.shuffle(kinds)
+        elif pat == 'all-fine':
+            kinds = ['fine'] * nph
+        elif pat == 'all-coarse':
+            kinds = ['coarse'] * nph
+        elif pat == 'one-present':
+            kinds = ['absent'] * nph; kinds[rng.randrange(nph)] = rng.choice(['fine', 'coarse'])
+        else:
+            kinds = [rng.choice(['absent', 'fine', 'coarse', 'subcore']) for _ in range(nph)]
+        pats.append(pat)
+        for k in range(nph):
+            cols_r[k][i], cols_l[k][i] = point(kinds[k])
+    return dict(p=p, allOn=allOn, phases=phases, exps=exps, M=rng.choice([2.24, 1.0, 3.06]), cols_r=cols_r, cols_l=cols_l,
+                bump=[rng.randrange(nph), rng.choice([0.8, 0.9, 0.97, 1.1])])
+
+
+def super_impl(a, cols_l=None):
+    """what the implementation reports for one case of (J): per phase the combined strength and the weak-dominant flag
+    (getStrengthContributions + combineStrengthContributions, cleaned the way precStrength cleans them), and precStrength
+    of the host over the history"""
+    p, allOn, phases, exps, M = (a[k] for k in ('p', 'allOn', 'phases', 'exps', 'M'))
+    sm = build_model(p, allOn, [(ph['name'], ph['on'], ph['q']) for ph in phases])
+    sm.setTaylorFactor(M); sm.setStrengthSuperpositionExponent(*exps)
+    R = np.array(a['cols_r'], dtype=float).T.copy()
+    L = np.array(a['cols_l'] if cols_l is None else cols_l, dtype=float).T.copy()
+    st, fl = [], []
+    for k, ph in enumerate(phases):
+        with np.errstate(all='ignore'):
+            w, s_, o, _ = sm.getStrengthContributions(R[:, k].copy(), L[:, k].copy(), ph['name'])
+            x, c, _ = sm.combineStrengthContributions(w, s_, o, returnComparison=True)
+        x = np.asarray(x, dtype=float) * np.ones(R.shape[0]); c = np.asarray(c, dtype=bool) & np.ones(R.shape[0], dtype=bool)
+        c = c & np.isfinite(x); x = np.where(np.isfinite(x), x, 0.0)
+        st.append(x); fl.append(c)
+
+    class HM:
+        pass
+    hm = HM(); hm.phases = [ph['name'] for ph in phases]
+    sm.rss, sm.ls = R.copy(), L.copy()
+    with np.errstate(all='ignore'):
+        prec = np.asarray(sm.precStrength(hm), dtype=float)
+    return np.array(st), np.array(fl), prec
+
+
+def super_branch(flags_row):
+    P, cnt = len(flags_row), int(sum(bool(x) for x in flags_row))
+    if P == 1:
+        return 'one-phase', 'one phase'
+    if cnt == 0:
+        return 'same-regime', 'no phase weak-dominated'
+    if cnt == P:
+        return 'same-regime', 'every phase weak-dominated'
+    return 'mixed-regime', '%d of %d phases weak-dominated' % (cnt, P)
+
+
+def chk_super(a, want_data=False):
+    """(J) oracle on the implementation's own outputs, row by row: the combined precipitate strength of a multi-phase host
+    is finite, >= its strongest phase, <= the plain sum of its phases (exponents >= 1), equals (sum s_i^p)^(1/p) with ONE
+    exponent p for the sum and the root (p = multiphaseSameExp when no / every phase is weak-dominated, multiphaseMixedExp
+    otherwise; computed here from the per-phase values the model reports), is 0 when every phase is absent, equals the
+    phase's strength for a one-phase host, and does not decrease when ONE phase gets stronger while all regime flags stay"""
+    st, fl, prec = super_impl(a)
+    P, n = st.shape
+    nS, nM = a['exps'][1], a['exps'][2]
+    out, seen = [], set()
+
+    def fail(key, what, obs, req):
+        if key not in seen:
+            seen.add(key); out.append((key, what, obs, req))
+    branches = []
+    for i in range(n):
+        s = [float(x) for x in st[:, i]]
+        br, how = super_branch(fl[:, i])
+        branches.append(br if br != 'same-regime' else br + (':none-weak' if not any(fl[:, i]) else ':all-weak'))
+        pexp = nM if br == 'mixed-regime' else nS
+        v = float(prec[i]) if i < len(prec) else float('nan')
+        row = {'row': i, 'r': [a['cols_r'][k][i] for k in range(P)], 'Ls': [a['cols_l'][k][i] for k in range(P)], 'phase_strengths': s,
+               'weak_dominant': [bool(x) for x in fl[:, i]], 'exponents': {'same': nS, 'mixed': nM}, 'combined': v}
+        if not math.isfinite(v) or v < 0:
+            fail('superposition-%s:%s' % ('negative' if v < 0 else 'nonfinite', br), 'combined precipitate strength of %d phases is %r (%s)' % (P, v, how), row, '>= 0, finite')
+            continue
+        if min(s) < 0:
+            continue                # reported by part (B)
+        ref = ref_super(s, pexp) if max(s) > 0 else 0.0
+        if v < max(s) * (1 - 1e-9):
+            fail('superposition-below-strongest-phase:%s' % br, 'row %d (%s): phases of %s MPa combine to %.6g MPa, below the strongest phase'
+                 % (i, how, ', '.join('%.6g' % (x / 1e6) for x in s), v / 1e6), row, max(s))
+        if pexp >= 1 and v > sum(s) * (1 + 1e-9):
+            fail('superposition-above-sum:%s' % br, 'row %d (%s): phases of %s MPa combine to %.6g MPa, above their plain sum'
+                 % (i, how, ', '.join('%.6g' % (x / 1e6) for x in s), v / 1e6), row, sum(s))
+        if not close(v, ref, 1e-9):
+            fits = [(ps_, pr_) for ps_ in (nS, nM) for pr_ in (nS, nM)
+                    if max(s) > 0 and close(v, math.pow(sum(math.pow(x, ps_) for x in s), 1.0 / pr_), 1e-9)]
+            fail('superposition-exponent-mismatch:%s' % br, 'row %d (%s): combined strength %.9g is not (sum s_i^p)^(1/p) with p = %r (= %.9g)%s'
+                 % (i, how, v, pexp, ref, '; it is the power sum with exponent %r under the root 1/%r' % fits[0] if fits else ''), row, ref)
+        if P == 1 and not close(v, s[0], 1e-9):
+            fail('superposition-single-phase', 'one-phase host: combined strength %r, the phase has %r' % (v, s[0]), row, s[0])
+        if max(s) == 0 and v != 0:
+            fail('superposition-no-precipitates-nonzero', 'no phase has precipitates, combined strength %r' % v, row, 0.0)
+    # one phase made stronger / weaker (denser / wider spacing at the same radius): same regime flags -> same direction
+    k, f = a['bump']
+    cl2 = [list(c) for c in a['cols_l']]
+    cl2[k] = [x * f for x in cl2[k]]
+    st2, fl2, prec2 = super_impl(a, cl2)
+    mono = 0
+    for i in range(n):
+        if not (np.array_equal(fl[:, i], fl2[:, i]) and math.isfinite(prec[i]) and math.isfinite(prec2[i]) and st[k, i] > 0):
+            continue
+        up, dn = st2[k, i] >= st[k, i], st2[k, i] <= st[k, i]
+        mono += 1
+        if (up and prec2[i] < prec[i] * (1 - 1e-9)) or (dn and prec2[i] > prec[i] * (1 + 1e-9)):
+            br, how = super_branch(fl[:, i])
+            fail('superposition-not-monotone', 'row %d (%s): phase %d went from %.9g to %.9g (spacing x %g, flags unchanged), the combined strength from %.9g to %.9g'
+                 % (i, how, k, st[k, i], st2[k, i], f, prec[i], prec2[i]),
+                 {'row': i, 'phase': k, 'phase_strength': [float(st[k, i]), float(st2[k, i])], 'combined': [float(prec[i]), float(prec2[i])]}, 'same direction')
+    if want_data:
+        return out, dict(st=st, fl=fl, prec=prec, branches=branches, mono=mono)
+    return out
+
+
 EXACT_PAIRS = [   # (mixed, comparison at 90 deg, comparison at 0 deg, needs J == 1)
     ('modulusWeak', 'modulusWeakEdge', 'modulusWeakScrew', False),
     ('APBweak', 'APBweakEdge', 'APBweakScrew', False),
@@ -1331,6 +1496,210 @@ def hhist_impl(a):
                 nV=nV, nR=nR, steps=st['g'], over_reset=cov['over_reset'], models=nm)
 
 
+# ------------------------------------------------------------------ (K) host histories with stopping conditions that are MET
+_TIMECOND = {}
+
+
+def host_time_condition():
+    """a time-like stopping condition of a user: a PrecipitationStoppingCondition that polls the host clock (row n of
+    pData.time, like every shipped condition polls row n of its own array)"""
+    vlib.use_repo()
+    from kawin.precipitation import StoppingConditions as SC
+    if _TIMECOND.get('base') is not SC.PrecipitationStoppingCondition:
+        class HostTimeCondition(SC.PrecipitationStoppingCondition):
+            def _poll(self, model, n):
+                return model.pData.time[n]
+        _TIMECOND['base'], _TIMECOND['cls'] = SC.PrecipitationStoppingCondition, HostTimeCondition
+    return _TIMECOND['cls']
+
+
+def make_stop_condition(kind, rng):
+    """conditions the Al-Zr host of (K) (6e-3 Zr, 823.15 K, 30 size classes: nucleation rate > 0 from host step 2, first
+    precipitates at step 16, t = 0.16 s) MEETS within its first ~35 steps"""
+    vlib.use_repo()
+    from kawin.precipitation import StoppingConditions as SC
+    G = SC.Inequality.GREATER_THAN
+    if kind == 'density':
+        v = 10 ** rng.uniform(-11, -1); return SC.PrecipitateDensityCondition(G, v), v
+    if kind == 'volfrac':
+        v = 10 ** rng.uniform(-38, -27); return SC.VolumeFractionCondition(G, v), v
+    if kind == 'nucrate':
+        v = 10 ** rng.uniform(-200, 2); return SC.NucleationRateCondition(G, v), v
+    if kind == 'radius':
+        v = rng.uniform(1e-10, 4e-10); return SC.AverageRadiusCondition(G, v), v
+    v = rng.uniform(0.015, 0.3); return host_time_condition()(G, v), v
+
+
+def stophist_impl(a):
+    """(K) one history on a real Al-Zr PrecipitateModel with real StrengthModels, a GrainGrowthModel and a recorder attached
+    and 1-2 stopping conditions (precipitate density / volume fraction / nucleation rate / mean radius /
+    host clock; mode 'or', or two conditions in mode 'and') that are MET during a solve call: a short call that ends by
+    time (sometimes), a long call that the conditions end, 1-3 further calls after the conditions were met (each ends at its
+    first step), sometimes clearStoppingConditions and a call that ends by time again; one model may be attached between
+    the calls.  Determined by a['s'].
+    Oracle after EVERY host step (observer around the host's postProcess, which sees the step that ends a run like any
+    other): every attached model received exactly one update call, every StrengthModel has one entry more (rss / ls / solid
+    solution; + the initial entry at its first update), every GrainGrowthModel clock advanced by the host step;
+    after every solve call: len(strength history) == pData.n + 1 and grain clock == host clock for the models attached
+    from the start."""
+    import random
+    import kwnruns
+    vlib.use_repo()
+    from kawin.solver import SolverType
+    rng = random.Random(a['s'])
+    out = []
+    host = kwnruns.build_binary(x0=6e-3, T=823.15, bins=30, minBins=20, maxBins=40)
+    kinds = ['strength', 'grain'] + [rng.choice(['strength', 'recA', 'grain']) for _ in range(rng.randint(0, 1))]
+    rng.shuffle(kinds)
+    models, desc = [], []
+    for kd in kinds:
+        m, d = make_coupling_model(kd, rng)
+        models.append(m); desc.append(d)
+    nm = len(models)
+    cls = [type(m).__name__ for m in models]
+    late = rng.randrange(nm) if (nm > 2 and rng.random() < 0.4) else None       # attached between the solve calls
+    st = {'g': 0, 'in': 0, 'cap': 1}
+    log, recs, allstops = [], [], []
+    for k, m in enumerate(models):
+        def upd(h, k=k, orig=m.updateCoupledModel):
+            log.append((st['g'], host_index(h), k))
+            return orig(h)
+        m.updateCoupledModel = upd
+
+    def state(k):
+        m = models[k]
+        if desc[k]['kind'] == 'strength':
+            return (0 if m.rss is None else int(m.rss.shape[0]), 0 if m.ls is None else int(m.ls.shape[0]),
+                    0 if m.solidStrength is None else len(m.solidStrength))
+        if desc[k]['kind'] == 'grain':
+            return (len(m.time), len(m.avgR), float(m.time[-1]), float(m.pbm.ThirdMoment()))
+        return (len(m.seen),)
+    orig_pp = host.postProcess
+
+    def pp(t, x):
+        st['g'] += 1
+        res_ = orig_pp(t, x)
+        n = host_index(host)
+        recs.append(dict(g=st['g'], n=n, t=host_time(host), dt=host_time(host) - float(host.pData.time[n - 1]), stop=bool(res_[1]),
+                         states=[state(k) for k in range(nm)]))
+        allstops.append(bool(res_[1]))
+        st['in'] += 1
+        if st['in'] >= st['cap']:
+            raise kwnruns.StopRun()
+        return res_
+    host.postProcess = pp
+    # ---- the conditions
+    ckinds = ['density', 'density', 'volfrac', 'volfrac', 'nucrate', 'radius', 'time', 'time']
+    if rng.random() < 0.3:
+        conds = [(kd, 'and') for kd in rng.sample(sorted(set(ckinds)), 2)]
+    else:
+        conds = [(rng.choice(ckinds), 'or')] + ([(rng.choice(ckinds), 'or')] if rng.random() < 0.3 else [])
+    cdesc = []
+    for kd, mode in conds:
+        c, v = make_stop_condition(kd, rng)
+        host.addStoppingCondition(c, mode)
+        cdesc.append('%s:%s:%.3g' % (kd, mode, v))
+    # ---- the calls: (simulated time, step cap)
+    plan = []
+    if rng.random() < 0.6:
+        plan.append((rng.uniform(0.015, 0.12), 40))
+    plan.append((5.0, 60))
+    plan += [(rng.uniform(0.005, 0.05), 40) for _ in range(rng.randint(1, 3))]
+    if rng.random() < 0.3:
+        plan += [('clear', 0), (rng.uniform(0.01, 0.04), 12)]
+    order = [k for k in range(nm) if k != late]
+    for k in order:
+        host.addCouplingModel(models[k])
+    n_upd = [0] * nm
+    exp_clock = [float(m.time[-1]) if desc[k]['kind'] == 'grain' else 0.0 for k, m in enumerate(models)]
+    t_attach = [0.0] * nm
+    calls, ends, fuels = [], [], []
+    ok = True
+
+    def fail(key, what, obs=None, req=None):
+        out.append((key, what, obs, req))
+    for ci, (simT, cap) in enumerate(plan):
+        if simT == 'clear':
+            host.clearStoppingConditions(); calls.append('clear'); continue
+        if late is not None and late not in order and ci >= 1 and rng.random() < 0.6:
+            host.addCouplingModel(models[late]); order.append(late); t_attach[late] = host_time(host) if host_index(host) > 0 else 0.0
+        del recs[:]
+        st['in'] = 0; st['cap'] = cap
+        capped = False
+        try:
+            host.solve(simT, solverType=SolverType.EXPLICITEULER if rng.random() < 0.5 else SolverType.RK4)
+        except kwnruns.StopRun:
+            capped = True
+        how = 'ended-by-step-cap' if capped else 'ended-by-condition' if (recs and recs[-1]['stop']) else 'ended-by-time'
+        calls.append('%s:%d' % (how, len(recs))); ends.append(host_index(host))
+        fuels.append(len(recs) + (rng.randint(1, 5) if how == 'ended-by-condition' else 0))
+        where = 'solve call %d of %d (%s after %d steps; conditions %s; calls so far %r)' % (len(ends), len([x for x in plan if x[0] != 'clear']), how, len(recs), ' '.join(cdesc), calls[:-1])
+        for j, rec in enumerate(recs):
+            final = j == len(recs) - 1 and how != 'ended-by-step-cap'
+            cls_ = ('coupled-update-skipped-on-final-step:%s' % how) if final else 'coupled-model-updates:stop-history:%s' % ('not-the-final-step' if j < len(recs) - 1 else how)
+            at = '%s, host step %d (t = %r, stop flag %r%s)' % (where, rec['n'], rec['t'], rec['stop'], ', the step that ends the call' if final else '')
+            got = [(n, k) for g_, n, k in log if g_ == rec['g']]
+            want = [(rec['n'], k) for k in order]
+            n0 = len(out)
+            for k in order:
+                n_upd[k] += 1
+                if desc[k]['kind'] == 'grain':
+                    exp_clock[k] += rec['dt']
+            if got != want:
+                miss = [k for k in order if sum(1 for _, j_ in got if j_ == k) != 1]
+                fail(cls_, '%s: updateCoupledModel calls at this step: %r; attached: %r%s' % (at, got, ['%s #%d' % (cls[k], k) for k in order],
+                     '; not updated: %r' % ['%s #%d' % (cls[k], k) for k in miss] if miss else ''), got, want)
+            for k in order:
+                s_, kd = rec['states'][k], desc[k]['kind']
+                if len(out) > n0 + 2:
+                    break
+                if kd == 'strength':
+                    wantr = n_upd[k] + 1
+                    if s_ != (wantr, wantr, wantr):
+                        fail(cls_ if final else 'strength-history-misaligned:stop-history:%s' % ('not-the-final-step' if j < len(recs) - 1 else how),
+                             '%s: %s #%d has %d/%d/%d entries (rss/ls/ss) after %d host steps since its attachment' % ((at, cls[k], k) + s_ + (n_upd[k],)), list(s_), wantr)
+                elif kd == 'grain':
+                    if not close(s_[2], exp_clock[k], 1e-9):
+                        fail(cls_ if final else 'grain-clock-misaligned:stop-history:%s' % ('not-the-final-step' if j < len(recs) - 1 else how),
+                             '%s: clock of %s #%d is %r, the host clock %r (attached at %r)' % (at, cls[k], k, s_[2], rec['t'], t_attach[k]), s_[2], exp_clock[k])
+                    elif s_[0] != s_[1] or not close(s_[3], 1.0, 1e-9):
+                        fail('coupled-grain-volume:stop-history', '%s: %s #%d: time/avgR lengths %d/%d, grain volume %r' % (at, cls[k], k, s_[0], s_[1], s_[3]), s_[3], 1.0)
+                elif s_[0] != n_upd[k]:
+                    fail(cls_, '%s: recorder #%d saw %d host steps, attached for %d' % (at, k, s_[0], n_upd[k]), s_[0], n_upd[k])
+            if len(out) > n0:
+                ok = False; break
+        if ok and recs:
+            # after the call: absolute alignment with the host arrays, the last entry is the host's current state
+            hn = host_index(host)
+            for k in order:
+                m = models[k]
+                if desc[k]['kind'] == 'strength' and t_attach[k] == 0.0 and k != late:
+                    if not (len(m.rss) == len(m.ls) == len(m.solidStrength) == host.pData.n + 1):
+                        fail('coupled-update-skipped-on-final-step:%s' % how, '%s: after the call %s #%d has %d/%d/%d entries, pData.n + 1 = %d'
+                             % (where, cls[k], k, len(m.rss), len(m.ls), len(m.solidStrength), host.pData.n + 1), len(m.rss), host.pData.n + 1); ok = False
+                    else:
+                        row = [float(m.rssterm(host, p_)) for p_ in range(len(host.phases))]
+                        if [float(x) for x in m.rss[-1]] != row or float(m.solidStrength[-1]) != float(m.ssStrength(host, hn)):
+                            fail('strength-history-row:stop-history:%s' % how, '%s: last entry of %s #%d is not the host state after step %d' % (where, cls[k], k, hn),
+                                 [float(x) for x in m.rss[-1]], row); ok = False
+                        with np.errstate(all='ignore'):
+                            ps_ = np.asarray(m.precStrength(host), dtype=float)
+                            tot = np.asarray(m.totalStrength(m.solidStrength, ps_), dtype=float)
+                        if len(tot) != len(host.pData.time[:hn + 1]) or not np.all(np.isfinite(tot)) or np.any(tot < 0):
+                            fail('coupled-totalStrength', '%s: total strength of %s #%d over the history: %d entries for %d host rows, or negative / non-finite' % (where, cls[k], k, len(tot), hn + 1)); ok = False
+                elif desc[k]['kind'] == 'grain' and k != late and not close(float(m.time[-1]), host_time(host), 1e-9):
+                    fail('coupled-update-skipped-on-final-step:%s' % how, '%s: after the call the clock of %s #%d is %r, host clock %r' % (where, cls[k], k, float(m.time[-1]), host_time(host)),
+                         float(m.time[-1]), host_time(host)); ok = False
+        if not ok:
+            break
+    return dict(out=out, calls=calls, conds=cdesc, kinds=kinds, n=host_index(host), g=st['g'], ends=ends, fuels=fuels,
+                upd0=[n for g_, n, k in log if k == order[0]], late=late is not None and late in order, stops=list(allstops))
+
+
+def chk_stophist(a):
+    return stophist_impl(a)['out']
+
+
 def chk_gghist(a):
     return gghist_impl(a)['out']
 
@@ -1352,7 +1721,8 @@ def chk_coupled(args):
 CHECKS = {'strength': chk_strength, 'limits': chk_limits, 'zener': chk_zener, 'normalize': chk_normalize,
           'ggrun': lambda a: chk_ggrun(a)[0], 'gen': lambda v: (gen_impl(v), [])[1], 'contrib': lambda a: (contrib_impl(a), [])[1],
           'hist': lambda a: chk_hist(a)[0], 'ggcalls': lambda a: (gg_impl(a), [])[1], 'ggcase': lambda a: (gg_case(a), [])[1],
-          'coupled': chk_coupled, 'couple': chk_couple, 'gghist': chk_gghist, 'hhist': chk_hhist}
+          'coupled': chk_coupled, 'couple': chk_couple, 'gghist': chk_gghist, 'hhist': chk_hhist,
+          'super': chk_super, 'stophist': chk_stophist}
 
 
 def apply_check(res, kind, args):
@@ -1783,6 +2153,61 @@ def corr(ctx, oracle_only=False, scale=1, skip_run=False):
             take([('c18.hcouple 0 %d %s' % (len(h['lops']), ' '.join(h['lops'])) if h['lops'] else 'c18.hcouple 0 0',
                    ('hcouple', {'part': 'I', **a, 'ops': ' '.join(h['ops'])}, h['ids'], h['n'], h['g'], h['log']))])
 
+    # ---------------- (J) multi-phase superposition: 1-4 phases in different regimes at the same history entry
+    for it in range(ctx.n(120, 6000) * scale):
+        a = gen_super_case(rng)
+        case = {'chk': 'super', 'args': a}
+        ok, val = vlib.guarded(res, 'multi-phase-superposition', case, chk_super, a, True)
+        if not ok:
+            continue
+        out, d = val
+        for key, what, obs, req in out[:4]:
+            res.violate(key, what, case, obs, req)
+        P, nrows = d['st'].shape
+        res.case(('J', repr(sorted(a['p'].items())), tuple(map(tuple, a['cols_r'])), tuple(a['exps'])), 'mixed-regime' in d['branches'] or (P == 1 and float(np.max(d['st'])) > 0))
+        res.count('J:phases=%d' % P); res.count('J:exponents:%s' % ('default' if a['exps'][1:3] == [1.8, 1.4] else 'other'))
+        for b in d['branches']:
+            res.count('J:row:' + b)
+        res.count('J:row:one-phase-absent-others-in-different-regimes', sum(1 for i in range(nrows) if d['branches'][i] == 'mixed-regime' and float(np.min(d['st'][:, i])) == 0))
+        res.count('J:monotonicity-comparisons', d['mono'])
+        if len([x for x in res.samples if x.get('part') == 'J']) < 1 and 'mixed-regime' in d['branches']:
+            i = d['branches'].index('mixed-regime')
+            res.sample({'part': 'J', 'phases': P, 'exps': a['exps'], 'row': i, 'phase_strengths': [float(x) for x in d['st'][:, i]],
+                        'weak_dominant': [bool(x) for x in d['fl'][:, i]], 'combined': float(d['prec'][i])}, cap=12)
+        if use_model and not out:
+            ln = 'c18.precrow 0 %s %s %d %d' % (f2b(a['exps'][1]), f2b(a['exps'][2]), nrows, P)
+            for i in range(nrows):
+                for k in range(P):
+                    ln += ' %s %s' % (f2b(d['st'][k, i]), vlib.enc_bool(bool(d['fl'][k, i])))
+            take([(ln, ('precrow', {'part': 'J', 'exps': a['exps'], 'phase_strengths': d['st'].T.tolist(), 'weak_dominant': d['fl'].T.tolist()},
+                        [float(x) for x in d['prec']], [float(x) for x in np.max(d['st'], axis=0)], [b != 'mixed-regime' for b in d['branches']]))])
+
+    # ---------------- (K) host histories with stopping conditions that are met during a solve call
+    for it in range(ctx.n(5, 60) * scale):
+        a = {'s': rng.getrandbits(48)}
+        case = {'chk': 'stophist', 'args': a}
+        ok, h = vlib.guarded(res, 'stop-history', case, stophist_impl, a)
+        if not ok:
+            continue
+        for key, what, obs, req in h['out'][:4]:
+            res.violate(key, what, case, obs, req)
+        hows = [c.split(':')[0] for c in h['calls']]
+        first = hows.index('ended-by-condition') if 'ended-by-condition' in hows else None
+        res.case(('K', a['s']), first is not None and first < len(hows) - 1)
+        res.count('K:histories'); res.count('K:host-steps', h['g'])
+        for c in hows:
+            res.count('K:call:' + c)
+        if first is not None:
+            res.count('K:solve-calls-after-a-condition-ended-call', sum(1 for c in hows[first + 1:] if c != 'clear'))
+        for c in h['conds']:
+            res.count('K:condition:%s:%s' % tuple(c.split(':')[:2]))
+        res.count('K:model-attached-between-calls', int(h['late']))
+        if len([x for x in res.samples if x.get('part') == 'K']) < 1:
+            res.sample({'part': 'K', **a, 'models': h['kinds'], 'conditions': h['conds'], 'calls': h['calls']}, cap=14)
+        if use_model and not h['out']:
+            take([('c18.stopstep 0 %s %d %s' % (vlib.enc_ilist(h['fuels']), len(h['stops']), ' '.join(vlib.enc_bool(b) for b in h['stops'])),
+                   ('stopstep', {'part': 'K', **a, 'conditions': h['conds'], 'calls': h['calls']}, h['n'], h['upd0'], h['ends']))])
+
     # ---------------- (E) grain growth
     for _ in range(ctx.n(400, 30000) * scale):
         cMin = 10 ** rng.uniform(-8, -6)
@@ -1925,6 +2350,27 @@ def compare(res, verb, t, aft):
             bad = next((i for i, (x, y) in enumerate(zip(mlog, log)) if tuple(x) != tuple(y)), min(len(mlog), len(log)))
             res.disagree('updateCoupledModel calls (host step, host index, model) in call order', dict(case, first_difference=bad),
                          [list(x) for x in log[bad:bad + 4]], [list(x) for x in mlog[bad:bad + 4]])
+        res.traces += 1
+    elif kind == 'precrow':
+        _, _, prec, mx, same = aft
+        k = t.nat()
+        if k != len(prec):
+            res.disagree('multi-phase rows: number of rows', case, len(prec), k); return
+        for i in range(k):
+            mv, mm, msame = t.flt(), t.flt(), t.bool()
+            c2 = dict(case, row=i, phase_strengths=case['phase_strengths'][i], weak_dominant=case['weak_dominant'][i])
+            if msame != same[i]:
+                res.disagree('same-regime / mixed-regime branch of the row', c2, same[i], msame); return
+            if not close(prec[i], mv, 1e-9) or not close(mx[i], mm, 1e-12):
+                res.disagree('precStrength of the row from the per-phase strengths and flags (one exponent per branch) / strongest phase', c2, [prec[i], mx[i]], [mv, mm]); return
+    elif kind == 'stopstep':
+        _, _, n, upd, ends = aft
+        mn = t.nat(); mupd = t.nats(); mends = t.nats()
+        if mn != n or mends != list(ends):
+            res.disagree('host rows / host index after every solve call (a call ends at the first step whose stopping conditions are met, that step is recorded)',
+                         case, [n, list(ends)], [mn, mends]); return
+        if mupd != list(upd):
+            res.disagree('host indices at which the coupled models were updated (every recorded row, the step that ends a run included)', case, list(upd)[-6:], mupd[-6:])
         res.traces += 1
     elif kind == 'ggload':
         states = aft[2]
